@@ -45,6 +45,35 @@ def run(tier, seed, opens):
                 k = rng.choice(keys)
                 w.utxo_add(k.address, v, txid, i, confirmations=conf)
                 utxos[(txid, i)] = (v, conf)
+            # scenario: a fee bump that the change cannot cover, so that another wallet UTXO has to be added
+            cases += 1
+            try:
+                w2 = Wallet.create('c07b%d' % wn, network='bitcoinlib_test', db_uri=db, witness_type=wt)
+                k2 = w2.get_key()
+                u2 = {}
+                for j, (vout, conf) in enumerate([(1, 10), (0, 5), (3, 7)]):
+                    txid = '%064x' % rng.getrandbits(256)
+                    w2.utxo_add(k2.address, 100000000, txid, vout, confirmations=conf)
+                    u2[(txid, vout)] = 100000000
+                dest2 = HDKey(network='bitcoinlib_test', witness_type=wt).address()
+                tb = w2.transaction_create([(dest2, 99900000)], fee=100000, replace_by_fee=True)
+                tb.bumpfee(extra_fee=20000)
+                ops_b = [(i.prev_txid.hex(), i.output_n_int) for i in tb.inputs]
+                real_in = sum(u2.get(op, 0) for op in set(ops_b))
+                pr = []
+                if len(set(ops_b)) != len(ops_b):
+                    pr.append('the same outpoint is spent more than once')
+                if real_in != sum(o.value for o in tb.outputs) + tb.fee:
+                    pr.append('real inputs %d != outputs %d + fee %d' % (real_in, sum(o.value for o in tb.outputs), tb.fee))
+                if [(o.address, o.value) for o in tb.outputs].count((dest2, 99900000)) != 1:
+                    pr.append('recipient output changed')
+                if pr:
+                    fail('bumpfee needing an extra input', {'wallet': wt, 'utxos': {'%s:%d' % k: v for k, v in u2.items()}, 'send': 99900000, 'fee': 100000,
+                                                            'extra_fee': 20000}, '; '.join(pr), 'balanced transaction, distinct outpoints')
+                else:
+                    ok += 1
+            except (WalletError, TransactionError, ValueError):
+                ok += 1
             own = set(w.addresslist())
             dests = [HDKey(network='bitcoinlib_test', witness_type=wt).address() for _ in range(3)]
             for _ in range(n_req):
@@ -109,6 +138,39 @@ def run(tier, seed, opens):
                     fail('transaction_create', inp, '; '.join(problems), 'a balanced transaction paying exactly the recipients', pid)
                 else:
                     ok += 1
+                # fee bump of the (unsent) transaction: still balanced, recipients untouched, no outpoint twice
+                if not problems and not explicit and rng.random() < 0.5:
+                    cases += 1
+                    extra = rng.choice([100, 1000, 20000, 200000])
+                    try:
+                        t2 = w.transaction_create(recips, fee=fee, number_of_change_outputs=nchange, replace_by_fee=True)
+                        before_fee = t2.fee
+                        t2.bumpfee(extra_fee=extra)
+                    except (WalletError, TransactionError, ValueError):
+                        ok += 1
+                        continue
+                    except Exception as e:
+                        fail('bumpfee', dict(inp, extra_fee=extra), repr(e), 'bumped transaction or WalletError')
+                        continue
+                    ops2 = [(i.prev_txid.hex(), i.output_n_int) for i in t2.inputs]
+                    tin2 = sum(utxos.get(op, (None,))[0] or 0 for op in set(ops2))
+                    tout2 = sum(o.value for o in t2.outputs)
+                    pr = []
+                    if len(set(ops2)) != len(ops2):
+                        pr.append('the same outpoint is spent more than once')
+                    if any(op not in utxos for op in ops2):
+                        pr.append('input is not a wallet UTXO')
+                    if tin2 != tout2 + t2.fee:
+                        pr.append('real inputs %d != outputs %d + fee %d' % (tin2, tout2, t2.fee))
+                    if t2.fee < before_fee:
+                        pr.append('fee went down')
+                    outs2 = [(o.address, o.value) for o in t2.outputs]
+                    if any(outs2.count(r) != recips.count(r) for r in recips):
+                        pr.append('recipient output changed')
+                    if pr:
+                        fail('bumpfee', dict(inp, extra_fee=extra), '; '.join(pr), 'a balanced transaction with the same recipients')
+                    else:
+                        ok += 1
     finally:
         shutil.rmtree(tmp, ignore_errors=True)
     return {'contract': 'Wallet.transaction_create[bounded]', 'target': 'bitcoinlib.wallets.Wallet.transaction_create / select_inputs', 'status': 'ok',
